@@ -889,8 +889,31 @@ pub fn c18(thorough: bool, seed: u64) -> CheckOutput {
     // boundaries: constant fills of every length 3..=24, and all single / paired / some tripled
     // 4-byte boundary words (0, 1, MAX, MIN, MAX-1, sign bit.. in both byte orders)
     for b in [0x00u8, 0x01, 0x7f, 0x80, 0xfe, 0xff] {
-        for len in 3..=24usize {
+        for len in 3..=40usize {
             ents.push(Ent::Bytes(vec![b; len]));
+        }
+    }
+    // 8-byte patterns read as doubles: infinities, NaNs with every low payload nibble and both
+    // signs, subnormals, -0.0, the largest finite value - in both byte orders, alone and repeated
+    let mut dbl: Vec<u64> = vec![
+        0x7ff0_0000_0000_0000, 0xfff0_0000_0000_0000, 0x8000_0000_0000_0000, 0x0000_0000_0000_0001, 0x000f_ffff_ffff_ffff,
+        0x7fef_ffff_ffff_ffff, 0xffef_ffff_ffff_ffff, 0x7ff8_0000_0000_0000, 0xfff8_0000_0000_0000, 0x7fff_ffff_ffff_ffff, 0xffff_ffff_ffff_ffff,
+    ];
+    for p in 1..=16u64 {
+        dbl.push(0x7ff0_0000_0000_0000 | p);
+        dbl.push(0xfff8_0000_0000_0000 | p);
+        dbl.push(0x7ff0_0000_0000_0000 | (p << 48));
+    }
+    for d in HOSTILE_DOUBLES {
+        dbl.push(d.to_bits());
+    }
+    for b in &dbl {
+        for bytes in [b.to_le_bytes(), b.to_be_bytes()] {
+            ents.push(Ent::Bytes(bytes.to_vec()));
+            let mut v = bytes.to_vec();
+            v.extend_from_slice(&bytes);
+            v.extend_from_slice(&bytes);
+            ents.push(Ent::Bytes(v));
         }
     }
     let mut words: Vec<[u8; 4]> = Vec::new();
@@ -1001,6 +1024,32 @@ pub fn c18(thorough: bool, seed: u64) -> CheckOutput {
                     }
                     if exhausted_from_start && r.iter().any(|&x| x != 0) {
                         bad!("gen_bytes", (len,), "non-zero", "exhausted input must fall back to zeros");
+                    }
+                }
+            }
+            // every scalar draw on its own, at the start of the input and after k bytes were
+            // consumed (so that each one gets to decode every part of the string): no panic, and
+            // the same answer twice
+            for k in [0usize, 1, 2, 3, 4, 7, 8, 16] {
+                let single = |s: &mut GenerationSource, which: usize| -> u64 {
+                    for _ in 0..k {
+                        s.gen_u8();
+                    }
+                    match which {
+                        0 => s.gen_bool() as u64,
+                        1 => s.gen_u8() as u64,
+                        2 => s.gen_u16() as u64,
+                        3 => s.gen_u32() as u64,
+                        4 => s.gen_i32() as u64,
+                        5 => s.gen_i64() as u64,
+                        _ => s.gen_f64().to_bits(),
+                    }
+                };
+                for which in 0..7usize {
+                    let a = call!("single_draw", (which, k), |s| single(s, which));
+                    let b = call!("single_draw", (which, k), |s| single(s, which));
+                    if a != b {
+                        bad!("single_draw", (which, k), (&a, &b), "two runs from the same entropy state differ");
                     }
                 }
             }
@@ -1131,7 +1180,7 @@ pub fn c18(thorough: bool, seed: u64) -> CheckOutput {
     acc.sample(json!({"entropy": {"prng_seed": 42}, "call": "gen_range(usize::MAX-1, usize::MAX)", "checked": "== usize::MAX-1"}));
     CheckOutput {
         acc,
-        rule: "cases = every EntropySource method on harness-built sources: n,a,b over an 18-point grid incl. 0,1,255,256,257,65536,2^32+-1,usize::MAX (all pairs), lengths 0..16,255,256,65536, x entropy states = ALL fuzzer byte strings of length <= 2 (65 793, exhaustive) + random strings of length 3..16 + constant fills of length 3..24 and concatenations of 4-byte boundary words + PRNG seeds; evaluations = calls; distinct non-trivial = distinct entropy states (each runs the whole argument grid)".into(),
+        rule: "cases = every EntropySource method on harness-built sources: n,a,b over an 18-point grid incl. 0,1,255,256,257,65536,2^32+-1,usize::MAX (all pairs), lengths 0..16,255,256,65536, x entropy states = ALL fuzzer byte strings of length <= 2 (65 793, exhaustive) + random strings of length 3..16 + constant fills of length 3..40, 8-byte double patterns (NaN payloads, infinities, subnormals) and concatenations of 4-byte boundary words + PRNG seeds; every scalar draw also on its own after 0..16 consumed bytes; evaluations = calls; distinct non-trivial = distinct entropy states (each runs the whole argument grid)".into(),
         extra: json!({"grid": grid.len(), "exhaustive_byte_strings_len_le_2": exhaustive_short, "exhaustive_byte_strings_len_3": three_byte_states, "entropy_states": ents.len()}),
         assumptions: vec!["documented fallbacks: 0 / false / min / zeros / 'a' (first table entry)".into()],
         exhaustive: None,
